@@ -23,6 +23,22 @@ from harness.common import enc, dec
 
 PROP = "C18"
 
+
+def _utf8_names():
+    """the codec registry's own answer for the names the grid writes into magic comments"""
+    import codecs as _c
+    out = []
+    for n_ in ["utf-8", "UTF-8", "utf8", "utf_8", "Utf-8", "u8", "utf-16", "nonesuch", "latin-1", "ascii", "cp1251", "cp1252", "koi8-r", "shift_jis", "euc-jp", "gb2312", "iso-8859-15"]:
+        try:
+            if _c.lookup(n_).name == "utf-8":
+                out.append(n_)
+        except LookupError:
+            pass
+    return out
+
+
+UTF8_NAMES = _utf8_names()
+
 CODECS = {
     "ascii": "plain ascii text",
     "utf-8": "café Привет 日本語 €",
@@ -99,11 +115,14 @@ def run(ctx):
     for codec, sample in CODECS.items():
         # after a BOM the text may itself begin with a character whose UTF-8 form starts with the bytes of the BOM (EF BB BF)
         for decl, lead in [(d_, "") for d_ in ["none", "comment", "known", "both-agree", "both-conflict", "bom", "bom-comment-utf8", "bom-comment-other", "comment-wrong", "known-empty"]] + \
-                [("bom", l_) for l_ in ["\ufeff", "\uff21", "\ufffd", "\ufb01", "\uf8ff", "\ufeff\ufeff"]]:
+                [("bom", l_) for l_ in ["\ufeff", "\uff21", "\ufffd", "\ufb01", "\uf8ff", "\ufeff\ufeff"]] + \
+                [("bom-comment-" + sp_, "") for sp_ in ["UTF-8", "utf8", "utf_8", "Utf-8", "u8", "utf-16", "nonesuch"]]:
             for as_str, corrupt in ((False, b""), (True, b""), (False, b" \xff\xfe tail"), (False, b" \xe3\x81"), (False, b" caf\xe9 ")):
                 other = names[(names.index(codec) + 3) % len(names)]
+                if decl.startswith("bom-comment-") and decl not in ("bom-comment-utf8", "bom-comment-other") and codec != "utf-8":
+                    continue
                 comment_codec = {"comment": codec, "both-agree": codec, "both-conflict": codec, "bom-comment-utf8": "utf-8",
-                                 "bom-comment-other": codec if codec != "utf-8" else "latin-1", "comment-wrong": "ascii"}.get(decl)
+                                 "bom-comment-other": codec if codec != "utf-8" else "latin-1", "comment-wrong": "ascii"}.get(decl, decl[len("bom-comment-"):] if decl.startswith("bom-comment-") else None)
                 known = {"known": codec, "both-agree": codec, "both-conflict": other, "known-empty": ""}.get(decl)
                 bom = decl.startswith("bom")
                 real = "utf-8" if bom else codec
@@ -130,7 +149,7 @@ def run(ctx):
                     want = ("ok", comment_codec or known or "utf-8", text)
                 elif bom:
                     try:
-                        want = ("compile-error",) if (comment_codec and comment_codec != "utf-8") else ("ok", "utf-8", data[3:].decode("utf-8"))
+                        want = ("compile-error",) if (comment_codec and comment_codec not in UTF8_NAMES) else ("ok", "utf-8", data[3:].decode("utf-8"))
                     except UnicodeDecodeError:
                         want = ("compile-error",)
                 else:
@@ -150,7 +169,7 @@ def run(ctx):
                 else:
                     full = data.decode("utf-8", "ignore")
                     stripped = data[3:].decode("utf-8", "ignore")
-                    req.append("decide|B|%s|%s|%s|%s" % (" ".join(map(str, data)), "~" if known is None else enc(known), enc(full), enc(stripped)))
+                    req.append("decide|B|%s|%s|%s|%s|%s" % (" ".join(map(str, data)), "~" if known is None else enc(known), enc(full), enc(stripped), ";".join(enc(n_) for n_ in UTF8_NAMES)))
                     if impl[0] == "ok":
                         got.append((case, "bytes|%s|%d" % (enc(impl[1]), len(data) - (3 if data.startswith(codecs.BOM_UTF8) else 0))))
                     else:
